@@ -28,7 +28,7 @@ const rule = "generated flow configurations (1-3 user flows on one URL, 0-2 quot
 	"assignments; non-trivial = configuration accepted by the real loader and at least one transaction executed " +
 	">= 2 processors or took a short-circuit; distinct by (configuration, oracle, events)"
 
-const maxBuildTries = 60
+const maxBuildTries = 400
 
 func parseEndp(w string) (endp, bool) {
 	p := strings.Split(w, ":")
@@ -206,6 +206,9 @@ func exec(c proto.Case, o *proto.Out) []string {
 				break
 			}
 			fd := &flowDef{name: proto.Dec(w[1]), kind: kind}
+			if u, ok := proto.KV(w, "u"); ok {
+				fd.url = u
+			}
 			fd.methods = decList(w, "m")
 			fd.headers = decPairs(w, "h")
 			fd.status = decList(w, "st")
@@ -245,11 +248,11 @@ func exec(c proto.Case, o *proto.Out) []string {
 				break
 			}
 			u, _ := proto.KV(w, "url")
-			if len(w) != 4 || (u != "exact" && u != "wild") {
+			if len(w) < 4 || (u != "exact" && u != "wild") {
 				outs[i] = "bad-op"
 				break
 			}
-			cfg.quotas = append(cfg.quotas, quotaDef{id: proto.Dec(w[1]), kind: kind, wild: u == "wild"})
+			cfg.quotas = append(cfg.quotas, quotaDef{id: proto.Dec(w[1]), kind: kind, wild: u == "wild", methods: decList(w, "m")})
 			outs[i] = "ok"
 		case "load":
 			ord, _ := proto.KV(w, "order")
@@ -288,7 +291,14 @@ func exec(c proto.Case, o *proto.Out) []string {
 				if eng.loadErr != nil {
 					break
 				}
-				if orderMatches(order, names(eng.user)) {
+				es, ee := expectedSys(cfg)
+				userOK := true
+				for _, nodeNames := range eng.userNodes {
+					userOK = userOK && orderMatches(order, nodeNames)
+				}
+				if userOK &&
+					strings.Join(es, ",") == strings.Join(names(eng.start), ",") &&
+					strings.Join(ee, ",") == strings.Join(names(eng.end), ",") {
 					break
 				}
 				if tries >= maxBuildTries {
@@ -339,6 +349,9 @@ func exec(c proto.Case, o *proto.Out) []string {
 				break
 			}
 			at := defaultAttrs()
+			if u, ok := proto.KV(w, "u"); ok && u == "y" {
+				at.url = "y"
+			}
 			if m, ok := proto.KV(w, "m"); ok {
 				at.method = proto.Dec(m)
 			}
@@ -373,6 +386,43 @@ func exec(c proto.Case, o *proto.Out) []string {
 				acts[k] = proto.Enc(acts[k])
 			}
 			outs[i] = res + " ev=" + joinOr(evs, ",") + " acts=" + joinOr(acts, ",")
+		case "pair":
+			o1s, _ := proto.KV(w, "o1")
+			o2s, _ := proto.KV(w, "o2")
+			or1, ok1 := parseOracle(o1s)
+			or2, ok2 := parseOracle(o2s)
+			if !ok1 || !ok2 {
+				outs[i] = "bad-op"
+				break
+			}
+			if !loaded {
+				outs[i] = "not-loaded"
+				break
+			}
+			if unsafe {
+				outs[i] = "unsafe-cycle"
+				break
+			}
+			a1, a2 := defaultAttrs(), defaultAttrs()
+			if u, _ := proto.KV(w, "u1"); u == "y" {
+				a1.url = "y"
+			}
+			if u, _ := proto.KV(w, "u2"); u == "y" {
+				a2.url = "y"
+			}
+			r1, r2 := eng.runPair(or1, or2, a1, a2)
+			o.Count("pair")
+			fmtR := func(r [3]interface{}) string {
+				evs, _ := r[1].([]string)
+				acts, _ := r[2].([]string)
+				ea := make([]string, len(acts))
+				for k := range acts {
+					ea[k] = proto.Enc(acts[k])
+				}
+				return r[0].(string) + " ev=" + joinOr(evs, ",") + " acts=" + joinOr(ea, ",")
+			}
+			nontriv = true
+			outs[i] = fmtR(r1) + " " + fmtR(r2)
 		default:
 			outs[i] = "bad-op"
 		}
